@@ -84,6 +84,16 @@ Theorem C15_observable_sites_known :
     forallb (observable_only_in "InferContext::register_type_declarations"%string) hash_iter_sites = true.
 Proof. exact observable_sites_known. Qed.
 
+(* the second audit: Symbol derives Ord from the interner index, so a container kept SORTED by Symbol (sort, binary_search,
+   BTreeMap<Symbol,_>, BTreeSet<Symbol>) is ordered by which name the process interned first -- history dependent exactly as
+   C15_id_order_refuted says.  Every sort / sorted / binary_search / partition_point / cmp call and every walk of a
+   BTreeMap/BTreeSet keyed by Symbol in the current source is classified, and none of them is keyed by Symbol. *)
+Theorem C15_symbol_order_sites_classified : forallb (classified order_classes) symbol_order_sites = true.
+Proof. exact symbol_order_sites_classified. Qed.
+
+Theorem C15_no_symbol_order_site : forallb not_symbol_order symbol_order_sites = true.
+Proof. exact no_symbol_order_site. Qed.
+
 (* the hypotheses are satisfiable / the definitions compute *)
 Example C15_example_symbolic :
   observe [HIntern "zzz"; HStore "t"; HIntern "m$f"]%string
